@@ -109,6 +109,8 @@ FAM = {
         'E2': (((2, 2),), lambda b: dense(b, S(2, 3), 'ij,j...->i...'), ''),
         'Tz': (((2, 2),), lambda h: SymmetricBandToeplitzOperator(h, S(2, 3), method='dense'), ''),
         'To': (((2,),), lambda h: SymmetricBandToeplitzOperator(h, S(2, 3), method='overlap_save', fft_size=4), ''),
+        'To3': (((2,),), lambda h: SymmetricBandToeplitzOperator(h, S(2, 3), method='overlap_save', fft_size=3), ''),
+        'Tf': (((2, 2),), lambda h: SymmetricBandToeplitzOperator(h, S(2, 3), method='fft'), ''),
     },
     'stokes': {
         'R': (((2,),), lambda a: QURotationOperator(a, iqu_()), ''),
